@@ -8,7 +8,7 @@ R == INSTANCE Req
 
 ParamLists == UNION { [1..n -> PKinds] : n \in 0..MaxParams }
 C06Progs == { p \in [prop : {"C06"}, nmeth : 1..3, params : ParamLists, async : C06Asyncs, sel : C06Sels, extra : C06Extras] : C06WellFormed(p) }
-C07Progs == { p \in [prop : {"C07"}, nmeth : 1..2, params : ParamLists, async : C06Asyncs, kind : C07Kinds, depbounds : 0..3, target : {"unit", "generic"}, mixed : BOOLEAN] : C07WellFormed(p) }
+C07Progs == { p \in [prop : {"C07"}, nmeth : 1..2, params : ParamLists, async : C06Asyncs, kind : C07Kinds, depbounds : 0..3, target : {"unit", "generic"}, mixed : BOOLEAN, typed : BOOLEAN] : C07WellFormed(p) }
 Progs == C06Progs \cup C07Progs
 
 \* expectations of Level 1, from the abstract program only
